@@ -896,6 +896,31 @@ Fixpoint sweep (n : nat) (lim : Z) (f : Z -> obs) (prev : option obs) : list obs
       end
   end.
 
+(* sequences of low-level Renderer calls: add_question / add_rrset, TooBig caught by the caller
+   (the renderer has rolled back) and the sequence continues; any other exception ends it *)
+Inductive rop := RQ (n : name) (t c : Z) | RRS (sec : Z) (rs : rrset).
+
+Fixpoint run_rops (origin : option name) (ops : list rop) (r : rst) (acc : list obs) : list obs * rst :=
+  match ops with
+  | [] => (rev acc, r)
+  | op :: rest =>
+      match (match op with
+             | RQ n t c => add_question origin n t c r
+             | RRS s rs => add_rrset origin s rs r
+             end) with
+      | Ok (big, r') => run_rops origin rest r' (I (if big then 1 else 0) :: acc)
+      | Lib e => (rev (E e :: acc), r)
+      | Internal e => (rev (E e :: acc), r)
+      end
+  end.
+
+Definition rop_of_obs (o : obs) : option rop :=
+  match o with
+  | L [I 0; L n; I t; I c] => match name_of_obs n with Some n => Some (RQ n t c) | None => None end
+  | L [I s; rs] => match rrset_of_obs rs with Some rs => Some (RRS s rs) | None => None end
+  | _ => None
+  end.
+
 Definition run (c : obs) : obs :=
   match c with
   | L [I 1; m; o; I max_size; I reqp; I prefer; I pad] =>
@@ -925,6 +950,13 @@ Definition run (c : obs) : obs :=
       | Some m, Some o =>
           L (sweep (Z.to_nat n) lo
                    (fun lim => obs_of_res B (to_wire m o lim reqp (prefer =? 1) pad)) None)
+      | _, _ => E eBadObs
+      end
+  | L [I 7; o; I id; I flags; I max_size; L ops] =>
+      match oname_of_obs o, list_of_obs rop_of_obs ops with
+      | Some o, Some ops =>
+          let '(res, r) := run_rops o ops (mkRst (repeat 0 12) [] 0 0 0 0 0 flags max_size 0 false) [] in
+          L [L res; obs_of_res (fun r' => B (out r')) (write_header id r)]
       | _, _ => E eBadObs
       end
   | L [I 6; m; o; L lims; I reqp; I prefer; I pad] =>
